@@ -479,6 +479,64 @@ def w12(ctx, rid):
         raise core.AnchorLost('record-count fields of the tools: %d' % n)
 
 
+def w13(ctx, rid):
+    """the tools read blobs of every format version they can migrate from: the shared header reader of src/tools validates with
+    validate_without_version, never with the strict Header::validate (which rejects every version but the current one - migration
+    0 -> 1 and recovery of old blobs would fail at the first step)"""
+    prog = ctx.prog
+    n = 0
+    bad = 0
+    for f in prog.fns.values():
+        if not f.file.startswith('src/tools/'):
+            continue
+        for c in f.calls:
+            if c.bb not in f.reachable() or 'blob::header::Header' not in c.path:
+                continue
+            if c.name in ('validate', 'validate_without_version'):
+                n += 1
+                if c.name == 'validate':
+                    bad += 1
+                    ctx.bad(rid, 'tools-accept-old-versions|%s' % prog.fns[f.id].root, c.where(), 'a tool validates a blob header with the strict Header::validate: blobs of an older format version - the input of migration and of recovery - are rejected')
+    if n < 1:
+        raise core.AnchorLost('blob header validation in src/tools: %d' % n)
+    if not bad:
+        ctx.ok(rid, 'tools-accept-old-versions|scan', '', '%d blob header validations in the tools, all version-tolerant' % n, queries=n)
+
+
+def w14(ctx, rid):
+    """the output writer re-validates exactly what it wrote since the last round: whenever records leave its cache (clear, drain,
+    take ..) the byte counter of the cached records is reset in the same function - otherwise the next round seeks to the
+    wrong start position, the comparison fails and recovery / migration aborts with an incomplete output"""
+    prog = ctx.prog
+    n = 0
+    for f in prog.fns.values():
+        if f.file != 'src/tools/blob_writer.rs':
+            continue
+        fam_calls = [c for g in prog.family(prog.fns[f.id].root) for c in prog.fns[g].calls]
+        for c in f.calls:
+            if c.bb not in f.reachable() or c.name not in ('clear', 'drain', 'truncate', 'pop', 'remove', 'take', 'split_off'):
+                continue
+            flds = prims.field_of_receiver(f, c)
+            ty = f.locals[op_local(c.args[0])]['s'] if c.args and op_local(c.args[0]) is not None else ''
+            if 'cache' not in flds and 'record::record::Record' not in ty:
+                continue
+            n += 1
+            root = prog.fns[f.id].root
+            key = 'cache-and-counter-move-together|%s' % root
+            resets = False
+            for g in prog.family(root):
+                for b in prog.fns[g].blocks:
+                    for st in b['s']:
+                        if st['k'] == 'a' and core.place_fields(st['d'])[-1:] == ['written_cached']:
+                            resets = True
+            if resets:
+                ctx.ok(rid, key, c.where(), 'written_cached is reset where the cache is emptied')
+            else:
+                ctx.bad(rid, key, c.where(), 'records leave the writer\'s cache (`%s`) without written_cached being reset: the next validation round starts reading at the wrong position and fails on intact output' % c.name)
+    if n < 1:
+        raise core.AnchorLost('cache-emptying calls in BlobWriter: %d' % n)
+
+
 RULES = [
     Rule('C16.W1', 'the tools\' record writer stamps its own position into blob_offset (and recomputes the header CRC) before serialising a header', w1, 1),
     Rule('C16.W2', 'the recovered output is re-validated whenever validation was requested', w2, 1),
@@ -491,5 +549,7 @@ RULES = [
     Rule('C16.W10', 'the tools reader reports end of input only at position >= len (bare fields)', w10, 1),
     Rule('C16.W11', 'a key-generic validation tool loads the index with its own key type, not through the fixed key-size table', w11, 1),
     Rule('C16.W12', 'record counts reported by the tools are never the entry count of a key-indexed map', w12, 2),
+    Rule('C16.W13', 'the tools validate blob headers version-tolerantly (no strict Header::validate in src/tools)', w13, 1),
+    Rule('C16.W14', 'the output writer resets its cached-bytes counter wherever records leave its cache', w14, 1),
     Rule('C16.W7', 'the index tools load through the validating loader and validate every reported header', w7, 2),
 ]
